@@ -417,11 +417,17 @@ func TestC10_SnapshotsAndProjection(t *testing.T) {
 				if err := c.App.ValsetKeeper.Jail(c.Ctx(), c.Vals[i].Val(), "verif fixture"); err == nil {
 					jailed[i] = true
 				}
+				log = append(log, fmt.Sprintf("jail(v%d)=%v", i, jailed[i]))
+				if jailed[i] && rapid.Bool().Draw(t, "snapshotInTheJailingBlock") {
+					// Paloma jails in end blockers that run after staking's: until the next block the validator is jailed
+					// but still bonded, and a snapshot built now must already leave it out
+					build(t, "jailingBlock")
+					return
+				}
 				if _, err := c.Block(); err != nil {
 					t.Fatalf("block: %v", err)
 				}
 				observeSnapshots(t)
-				log = append(log, fmt.Sprintf("jail(v%d)=%v", i, jailed[i]))
 			},
 			"delegate": func(t *rapid.T) {
 				v := c.Vals[rapid.IntRange(0, n-1).Draw(t, "val")]
